@@ -9,7 +9,9 @@ From Coq Require Import List Bool Arith PeanoNat.
 From NM Require Import MiniGo.
 Import ListNotations.
 
-Definition value_eqb (a b : value) : bool := match a, b with VNil, VNil | VPtr, VPtr => true | _, _ => false end.
+(* abstract local stores hold nil or a plain pointer; concrete values are compared by nil-ness *)
+Definition anil (v : value) : bool := match v with VNil => true | VPtr _ => false end.
+Definition value_eqb (a b : value) : bool := Bool.eqb (anil a) (anil b).
 
 (* local stores, compared on the variables that matter *)
 Definition st_eqb (vars : list nat) (a b : store) : bool :=
@@ -23,18 +25,18 @@ Definition st_subset (vars : list nat) (S T : list store) : bool := forallb (fun
 Definition hvals (s : store) (a : atom_e) : list value :=
   match a with
   | ANil => [VNil]
-  | ANew => [VPtr]
+  | ANew => [VPtr None]
   | AVar (VL x) => [sget s (VL x)]
-  | AVar (VG _) => [VNil; VPtr]
+  | AVar (VG _) => [VNil; VPtr None]
   end.
 
 (* the outcomes of a condition; a dereference of a nil local ends the execution (no outcome) *)
 Fixpoint hcond (s : store) (c : cond) : list bool :=
   match c with
   | COpaque => [true; false]
-  | CNonNil (VL x) => [match sget s (VL x) with VPtr => true | VNil => false end]
+  | CNonNil (VL x) => [negb (anil (sget s (VL x)))]
   | CNonNil (VG _) => [true; false]
-  | CDeref _ (VL x) => match sget s (VL x) with VPtr => [true; false] | VNil => [] end
+  | CDeref _ (VL x) => if anil (sget s (VL x)) then [] else [true; false]
   | CDeref _ (VG _) => [true; false]
   | CNot c1 => map negb (hcond s c1)
   | CAnd c1 c2 => flat_map (fun b : bool => if b then hcond s c2 else [false]) (hcond s c1)
@@ -86,12 +88,12 @@ Section Havoc.
         Some {| h_norm := fold_right (st_add vars) [] (flat_map (fun s => assign_all vars s x (hvals s a)) S); h_bad := false |}
     | SCall _ x _ _ =>
         Some {| h_norm := match x with
-                          | Some y => fold_right (st_add vars) [] (flat_map (fun s => assign_all vars s y [VNil; VPtr]) S)
+                          | Some y => fold_right (st_add vars) [] (flat_map (fun s => assign_all vars s y [VNil; VPtr None]) S)
                           | None => S
                           end; h_bad := false |}
     | SDeref _ x =>
         Some {| h_norm := match x with
-                          | VL _ => filter (fun s => match sget s x with VPtr => true | VNil => false end) S
+                          | VL _ => filter (fun s => negb (anil (sget s x))) S
                           | VG _ => S
                           end; h_bad := false |}
     | SIf c s1 s2 =>
@@ -108,7 +110,18 @@ Section Havoc.
             Some {| h_norm := filter (fun s => existsb negb (hcond s c)) Sinv; h_bad := b |}
         end
     | SReturn a =>
-        Some {| h_norm := []; h_bad := existsb (fun s => existsb (fun v => value_eqb v VNil) (hvals s a)) S |}
+        Some {| h_norm := []; h_bad := existsb (fun s => existsb anil (hvals s a)) S |}
+    | SConv x _ _ =>
+        Some {| h_norm := fold_right (st_add vars) [] (flat_map (fun s => assign_all vars s x [VPtr None]) S); h_bad := false |}
+    | SCallI _ _ x xi _ _ _ =>
+        let S' := match xi with
+                  | VL _ => filter (fun s => negb (anil (sget s xi))) S
+                  | VG _ => S
+                  end in
+        Some {| h_norm := match x with
+                          | Some y => fold_right (st_add vars) [] (flat_map (fun s => assign_all vars s y [VNil; VPtr None]) S')
+                          | None => S'
+                          end; h_bad := false |}
     end.
 End Havoc.
 
@@ -132,13 +145,15 @@ Fixpoint lstmt (st : stmt) : list nat :=
   | SIf c a b => lcond c ++ lstmt a ++ lstmt b
   | SWhile c b => lcond c ++ lstmt b
   | SReturn a => latom a
+  | SConv x _ _ => lvar x
+  | SCallI _ _ x xi _ _ args => match x with Some y => lvar y | None => [] end ++ lvar xi ++ flat_map latom args
   end.
 
 (* nonnil -> nonnil holds of the body, intraprocedurally: no execution from a non-nil parameter returns nil or
    falls off the end (which returns the zero value) *)
 Definition infer_sem (fuel : nat) (fd : func) : bool :=
   Nat.eqb (f_nparams fd) 1 &&
-  match hreach (0 :: lstmt (f_body fd)) fuel (f_body fd) [[(VL 0, VPtr)]] with
+  match hreach (0 :: lstmt (f_body fd)) fuel (f_body fd) [[(VL 0, VPtr None)]] with
   | Some r => negb (h_bad r) && match h_norm r with [] => true | _ => false end
   | None => false
   end.
